@@ -261,13 +261,26 @@ class CallMixin:
                         ds = ast.unparse(d)
                         if ds not in ("staticmethod", "classmethod", "property"):
                             self.note_undecided(f"decorator @{ds} not modelled", fv.node)
+                gen_acc = None
                 if _is_generator(fv.node):
-                    self.note_undecided("generator function not modelled", fv.node)
+                    # a generator function consumed as a whole (for / list / sum ...): its body is evaluated eagerly and the
+                    # values it yields are collected in order — every `yield v` appends, `yield from it` extends. send()/throw()
+                    # and partial consumption are not modelled (next() on the result reads an element at an unknown position).
+                    gen_acc = self.new_list(state, [], fv.node, "generator")
+                    fr.gen_acc = gen_acc
                 body = strip_docstring(fv.node.body)
                 self.exec_block(body, state)
                 if not state.bottom:
                     fr.returns.append((state.copy(), NoneV()))
                     state.bottom = True
+                if gen_acc is not None:
+                    outs = [s_ for s_, _ in fr.returns]
+                    if outs:
+                        joined = self.join_all(outs)
+                        seq_ = self.list_seq(joined, gen_acc)
+                        from dataclasses import replace as _rp
+
+                        fr.returns = [(joined, _rp(seq_, kind="iter") if seq_ is not None else NoneV())]
         finally:
             self.stack.pop()
             self.call_nodes.pop()
